@@ -1559,9 +1559,19 @@ func precommittedValuesAvailable(tx *Tx, vLogs []appendable.Appendable) (bool, e
 			return false, nil
 		}
 
-		size, err := vLogs[vLogID-1].Size()
+		vLog := vLogs[vLogID-1]
+
+		size, err := vLog.Size()
 		if err != nil {
 			return false, err
+		}
+
+		if vLog.CompressionFormat() != appendable.NoCompression {
+			// vLen is the length of the value, not of what is stored for it
+			if off >= size {
+				return false, nil
+			}
+			continue
 		}
 
 		if off+int64(e.vLen) > size {
